@@ -72,23 +72,30 @@ def check(ctx):
                        nontrivial=False)
                 dcs.append(x["node"])
         # merged entries
-        strip = [n for n in body_nodes(fn.node) if isinstance(n, ast.Assign) and isinstance(n.value, ast.DictComp)
-                 and n.value.generators[0].ifs]
         ups = [c for f, c in calls_in(fn) if isinstance(c.func, ast.Attribute) and c.func.attr == "update"]
-        rec = {"strip": [norm(i) for s in strip for i in s.value.generators[0].ifs],
-               "update_target": [norm(c.func.value) for c in ups], "update_arg": [norm(c.args[0]) for c in ups if c.args]}
+        # what is merged: the argument of update(), through a local name if one is used
+        merged = []
+        for c in ups:
+            a = c.args[0] if c.args else None
+            if isinstance(a, ast.Name):
+                merged += [d.value for d in defs_reaching(fn, a.id, c) if d.value is not None]
+            elif a is not None:
+                merged.append(a)
+        comps = [m for m in merged if isinstance(m, ast.DictComp)]
+        rec = {"strip": [norm(i) for m in comps for i in m.generators[0].ifs],
+               "update_target": [norm(c.func.value) for c in ups], "fresh": bool(merged) and len(comps) == len(merged)}
         recs[name] = rec
-        ok = any(t.endswith(f" not in {BY2}") for t in rec["strip"])
-        ctx.ob("SIB-13", fn, f"merged entries filtered by {rec['strip']}", strip[0] if strip else fn.node, ok,
+        ok = bool(comps) and all(any(norm(i).endswith(f" not in {BY2}") for i in m.generators[0].ifs) for m in comps)
+        ctx.ob("SIB-13", fn, f"merged entries filtered by {rec['strip']}", comps[0] if comps else fn.node, ok,
                "the right-hand key names are not merged into the left item" if ok else
                "entries under the right-hand key names are merged too (renamed keys leak into the result)",
                clause="merging in the non-key entries")
         lp = [n for n in ast.walk(fn.node) if isinstance(n, ast.For) and norm(n.iter) == fn.params[0]]
         ITEM = norm(lp[0].target) if lp else "item"
         LOOK = LOOKN if dcs else "other_by_id"
-        ok = rec["update_target"] == [ITEM] and bool(strip) and rec["update_arg"] == [norm(strip[0].targets[0])]
-        ctx.ob("SIB-13", fn, f"{rec['update_target']}.update({rec['update_arg']})", ups[0] if ups else fn.node, ok,
-               "only the left item is updated, with the freshly built dict" if ok else
+        ok = rec["update_target"] == [ITEM] and rec["fresh"]
+        ctx.ob("SIB-13", fn, f"{rec['update_target']}.update({[norm(m)[:60] for m in merged]})", ups[0] if ups else fn.node, ok,
+               "only the left item is updated, with a freshly built dict" if ok else
                "the update does not go from the fresh merged dict into the left item", clause="left items keep their place; right items untouched")
         ys = yields_of(fn)
         if name == "inner_join":
